@@ -79,6 +79,40 @@ def build_dist(rec):
     raise ValueError(fam)
 
 
+SETTABLE = {"gauss_cov_scalar": "cov", "gauss_cov_vec": "cov", "normal": "std", "gamma": "rate", "laplace": "scale"}
+
+
+def spec_of(rec):
+    """(class name, constructor kwargs) for the families whose parameters the engine re-assigns."""
+    fam, n, z = rec["fam"], rec["n"], rec["zseed"]
+    mean = np.random.RandomState(z).randn(n)
+    if fam == "gauss_cov_scalar":
+        return ["Gaussian", {"mean": mean, "cov": 0.7}]
+    if fam == "gauss_cov_vec":
+        return ["Gaussian", {"mean": mean, "cov": np.linspace(0.5, 2.0, n)}]
+    if fam == "normal":
+        return ["Normal", {"mean": mean, "std": np.linspace(0.3, 1.2, n)}]
+    if fam == "gamma":
+        return ["Gamma", {"shape": np.linspace(1.0, 3.0, n), "rate": np.linspace(0.5, 2.0, n)}]
+    if fam == "laplace":
+        return ["Laplace", {"location": mean, "scale": np.linspace(0.5, 2.0, n)}]
+    return None
+
+
+def from_spec(spec):
+    import cuqi.distribution as D
+    return getattr(D, spec[0])(**spec[1])
+
+
+def named_callable(arg, n, vec):
+    """callable hyper-parameter whose argument is literally called `arg`"""
+    if arg == "s":
+        def f(s): return s * (np.ones(n) if vec else 1.0)
+    else:
+        def f(t): return t * (np.ones(n) if vec else 1.0)
+    return f
+
+
 def out_array(o):
     if hasattr(o, "samples"):
         return np.array(o.samples, float)
@@ -136,7 +170,15 @@ class StreamsRun:
         dists = [build_dist(r) for r in sc["dists"]]
         # the solo runs use the *same* distribution objects: sampling does not alter them (C11), whereas a
         # re-built GMRF differs by an ulp (its constructor runs ARPACK with a hidden random start vector)
-        twins = dists
+        twins = list(dists)
+        self.specs = {i: spec_of(r) for i, r in enumerate(sc["dists"]) if spec_of(r) is not None}
+        self.touched = {}
+        self.conditional = {}
+        import copy as _copy
+        for i_, sp_ in self.specs.items():
+            # families whose parameters may be re-assigned later: their solo runs use an untouched twin built from the
+            # same constructor arguments (these constructors are deterministic)
+            twins[i_] = from_spec(_copy.deepcopy(sp_))
         g = np.random.RandomState(sc["gseed"])
         g0 = g.get_state()
         G0 = np.random.get_state()
@@ -147,6 +189,8 @@ class StreamsRun:
             k = op["op"]
             ctx.log("op", k, {kk: vv for kk, vv in op.items() if kk != "op"})
             gd, Gd = rs_digest(g), core.SimRandom.state_digest()
+            if k == "a_sample" and self.conditional.get(op["d"]):
+                continue                  # object is conditional right now (refusal is checked by make_conditional)
             if k.startswith("a_"):
                 a_count += 1
                 pre = g.get_state()
@@ -155,7 +199,11 @@ class StreamsRun:
                 except Exception as e:
                     ctx.violate(PROP, "a_op_raised", self.sig(op=k, fam=self._fam(op)), err=type(e).__name__ + ": " + str(e)[:200])
                     continue
-                outs.append((i, "A", out))
+                if k == "a_sample" and op["d"] in self.specs:
+                    self._fresh_twin_oracle(op, dists[op["d"]], pre, out)
+                    if self.touched.get(op["d"]):
+                        continue          # re-parameterised object: its solo run is not re-playable from the recipe
+                outs.append((i, "A", out, pre))
                 ctx.log("a_out", core.digest(out))
                 if core.SimRandom.state_digest() != Gd:
                     ctx.violate(PROP, "global_stream_touched_by_rng_draw", self.sig(op=k, fam=self._fam(op)), N=op.get("N"))
@@ -176,13 +224,17 @@ class StreamsRun:
                         g.set_state(post)
             elif k.startswith("b_"):
                 b_count += 1
+                if k == "b_sample" and (self.touched.get(op["d"]) or self.conditional.get(op["d"])):
+                    continue
                 out = self.b_op(op, dists, bs)
-                outs.append((i, "B", out))
+                outs.append((i, "B", out, None))
                 ctx.log("b_out", core.digest(out))
                 if rs_digest(g) != gd:
                     ctx.violate(PROP, "own_generator_touched_by_global_draw", self.sig(op=k, fam=self._fam(op)))
             elif k == "cond_refuse":
                 self._cond_refuse(op, g)
+            elif k in ("setparam", "make_conditional"):
+                self._setter_op(op, dists, g)
         if a_count and b_count:
             ctx.nontrivial = True
             ctx.fault("interleave", min(a_count, b_count))
@@ -191,10 +243,11 @@ class StreamsRun:
         g2 = np.random.RandomState(0)
         g2.set_state(g0)
         saveG = np.random.get_state()
-        for (i, who, out) in outs:
+        for (i, who, out, pre_state) in outs:
             if who != "A":
                 continue
             op = self.case["ops"][i]
+            g2.set_state(pre_state)       # (A-ops on re-parameterised objects are judged by the fresh-twin oracle instead)
             o2, _ = self.a_op(op, twins, g2, None)
             ctx.count("decisions")
             if not np.array_equal(out, o2, equal_nan=True):
@@ -202,7 +255,7 @@ class StreamsRun:
                 break
         np.random.set_state(G0)
         bs2 = self.b_make()
-        for (i, who, out) in outs:
+        for (i, who, out, _pre) in outs:
             if who != "B":
                 continue
             op = self.case["ops"][i]
@@ -212,6 +265,74 @@ class StreamsRun:
                 ctx.violate(PROP, "interleaved_differs_from_solo", self.sig(client="B", op=op["op"], fam=self._fam(op)), index=i)
                 break
         np.random.set_state(saveG)
+
+    def _fresh_twin_oracle(self, op, dist, g_state_before, out):
+        """An object whose parameters were (re-)assigned must be indistinguishable from one constructed with them."""
+        ctx = self.ctx
+        fresh = from_spec(self.specs[op["d"]])
+        g2 = np.random.RandomState(0)
+        g2.set_state(g_state_before)
+        ref = out_array(fresh.sample(op["N"], rng=g2))
+        ctx.count("decisions")
+        sg = self.sig(fam=self._fam(op), reassigned=bool(self.touched.get(op["d"])))
+        if not close_arr(out, ref):
+            ctx.violate(PROP, "draws_differ_from_freshly_constructed_twin", sg, N=op["N"])
+            return
+        x = out.reshape(dist.dim, -1)[:, 0]
+        a, b = _safe(lambda: float(np.ravel(dist.logd(x))[0])), _safe(lambda: float(np.ravel(fresh.logd(x))[0]))
+        if a is not None and b is not None and not core.close(a, b, 1e-9):
+            ctx.violate(PROP, "logd_differs_from_freshly_constructed_twin", sg, got=a, twin=b)
+
+    def _setter_op(self, op, dists, g):
+        ctx = self.ctx
+        d = op["d"]
+        if d not in self.specs:
+            return
+        fam = self.sc["dists"][d]["fam"]
+        attr = SETTABLE[fam]
+        n = dists[d].dim
+        spec = self.specs[d]
+        if op["op"] == "setparam":
+            rs = np.random.RandomState(op["pick"])
+            new = float(rs.uniform(0.3, 3.0)) if (op["scalar"] or attr == "cov" and fam == "gauss_cov_scalar") \
+                else rs.uniform(0.3, 3.0, n)
+            setattr(dists[d], attr, new)
+            spec[1][attr] = new
+            self.touched[d] = True
+            self.conditional[d] = False
+            ctx.fault("parameter_reassigned")
+        else:
+            # turn the (already used) object into a conditional one by assigning a callable; it must then refuse to
+            # sample, consume nothing, and behave like a freshly built conditional distribution once the value is given
+            vec = fam != "gauss_cov_scalar"
+            f = named_callable("s", n, vec)
+            setattr(dists[d], attr, f)
+            self.touched[d] = True
+            self.conditional[d] = True
+            ctx.fault("made_conditional_by_assignment")
+            gd, Gd = rs_digest(g), core.SimRandom.state_digest()
+            for with_rng in (True, False):
+                try:
+                    dists[d].sample(op["N"], rng=g) if with_rng else dists[d].sample(op["N"])
+                    ctx.violate(PROP, "conditional_sampled", self.sig(kind="after_assignment", fam=fam, with_rng=with_rng))
+                except ValueError:
+                    pass
+                except Exception as e:
+                    ctx.violate(PROP, "conditional_sampled", self.sig(kind="after_assignment_crash", fam=fam),
+                                err=type(e).__name__)
+            if rs_digest(g) != gd or core.SimRandom.state_digest() != Gd:
+                ctx.violate(PROP, "refusal_consumed_randomness", self.sig(kind="after_assignment", fam=fam))
+            # give the value: must equal a freshly constructed distribution with that parameter
+            val = 1.7
+            try:
+                got = out_array(dists[d](s=val).sample(op["N"], rng=np.random.RandomState(11)))
+                sp2 = [spec[0], dict(spec[1])]
+                sp2[1][attr] = f(val)
+                ref = out_array(from_spec(sp2).sample(op["N"], rng=np.random.RandomState(11)))
+                if not close_arr(got, ref):
+                    ctx.violate(PROP, "draws_differ_from_freshly_constructed_twin", self.sig(fam=fam, reassigned=True), after="condition")
+            except Exception as e:
+                ctx.violate(PROP, "a_op_raised", self.sig(op="condition_after_assignment", fam=fam), err=type(e).__name__ + ": " + str(e)[:160])
 
     def _fam(self, op):
         if "d" in op:
@@ -261,6 +382,18 @@ class StreamsRun:
             ctx.violate(PROP, "refusal_consumed_randomness", self.sig(kind=kind))
 
 
+def close_arr(a, b):
+    a, b = np.asarray(a, float), np.asarray(b, float)
+    return a.shape == b.shape and core.close(a.ravel(), b.ravel(), 1e-9)
+
+
+def _safe(fn):
+    try:
+        return fn()
+    except Exception:
+        return None
+
+
 def rs_digest_from(state):
     r = np.random.RandomState(0)
     r.set_state(state)
@@ -271,6 +404,8 @@ def gen_case(r, tier):
     nd = r.randint(1, 3)
     dists = [{"fam": r.choice(FAMILIES[:-1]), "n": r.randint(1, 5), "zseed": r.randrange(1, 10 ** 6)} for _ in range(nd)]
     for d in dists:
+        if d["fam"] in ("gauss_cov_scalar", "gauss_cov_vec", "gauss_sparse_cov", "gauss_sparse_prec", "normal") and r.random() < 0.25:
+            d["n"] = r.choice([76, 80, 90])        # across the dense/sparse storage switch (MIN_DIM_SPARSE = 75)
         if d["fam"].startswith("gauss_sparse"):
             d["n"] = max(d["n"], 2)          # a 1x1 sparse matrix is not an accepted Gaussian input (outside C05)
     sc = {"dists": dists, "gseed": r.randrange(2 ** 31), "zseed": r.randrange(1, 10 ** 6)}
@@ -284,10 +419,14 @@ def gen_case(r, tier):
             ops.append({"op": "a_legacy", "kind": r.choice(["ULA", "MALA", "UGLA"]), "N": r.randint(2, 5)})
         elif x < 0.75:
             ops.append({"op": "b_sample", "d": r.randrange(nd), "N": N})
-        elif x < 0.92:
+        elif x < 0.90:
             ops.append({"op": "b_mcmc", "N": r.randint(1, 4)})
-        else:
+        elif x < 0.96:
             ops.append({"op": "cond_refuse", "kind": r.choice(["gauss_cov", "gauss_mean", "gamma", "gmrf", "normal"]), "N": N})
+        elif x < 0.985:
+            ops.append({"op": "setparam", "d": r.randrange(nd), "pick": r.randrange(10 ** 6), "scalar": r.random() < 0.5})
+        else:
+            ops.append({"op": "make_conditional", "d": r.randrange(nd), "N": N})
     return {"scenario": sc, "ops": ops}
 
 
